@@ -2073,7 +2073,7 @@ func (c *Ctx) contextualAdaptersConvert(rule string) {
 			case n == 0:
 				c.violate(rule, key, c.ipos(cl), "the type "+holder.Obj().Name()+" that keeps the contextio value has no method returning an error: nothing converts what the third-party reader / writer reports")
 			case bad != "" && ownMaking != "":
-				c.violate(rule, key, bad, "a method of "+holder.Obj().Name()+" answers an error of its own making ("+ownMaking+") that the reader / writer it wraps did not report: a read that delivers no bytes and no error — which the io.Reader contract allows and which is not the end of the data — ends the stream there; a copy stops at a prefix and reports success, and a digest computed from that stream is the digest of the prefix")
+				c.violate(rule, key, bad, "a method of "+holder.Obj().Name()+" answers an error of its own making ("+ownMaking+") that the reader / writer it wraps did not report: a read that delivers no bytes and no error (which the io.Reader contract allows and which is not the end of the data), or a source that breaks off in the middle (io.ErrUnexpectedEOF, a truncated compressed stream), ends the stream cleanly there; a read or a copy stops at a strict prefix and reports success, and a digest computed from that stream is the digest of the prefix")
 			case bad != "":
 				c.violate(rule, key, bad, "a method of "+holder.Obj().Name()+" returns the error of the third-party reader / writer without passing it through the package's converters: the end of the context is reported as the raw context.Canceled / context.DeadlineExceeded, which is neither the 'cancelled' nor the 'timeout' kind")
 			default:
